@@ -906,6 +906,27 @@ theorem C09_layout_regenerated :
       layout.root r = r ++ [UInt8.ofNat prefixRootKey] ∧ layout.size r = r ++ [UInt8.ofNat prefixSizeKey] :=
   ⟨⟨rfl, rfl⟩, rfl, rfl, rfl, ⟨rfl, rfl⟩, fun _ => ⟨rfl, rfl, rfl, rfl⟩⟩
 
+open Hive.Gen.C09Consts in
+/-- **Where keys, values and the root pass through a serializer and where the bytes are used** — regenerated from
+ads/map_impl.go on every run (the calls of every method in source order, with their arguments): the value serializer
+before the key serializer in `Set`; the trie is addressed with `keyBytes`, the raw-key store with the typed `key`
+(it serializes itself); `Stream` re-encodes the decoded raw key before `tree.Get`; `Commit` stores the root before it
+flushes; a nil-encoded value is stored as the empty value.  This is what `encOp` / `tstreamGo` / `istepG` / `fstep`
+were written against. -/
+theorem C09_calls_regenerated :
+    calls_Set = ["m.valueToBytes(value)", "m.keyToBytes(key)", "m.has(keyBytes)", "m.tree.Update(keyBytes, valueBytes)",
+      "m.rawKeysStore.Set(key, types.Void)", "m.addSize(1)"] ∧
+    calls_Get = ["m.keyToBytes(key)", "m.tree.Get(keyBytes)", "m.bytesToValue(valueBytes)"] ∧
+    calls_Has = ["m.keyToBytes(key)", "m.has(keyBytes)"] ∧
+    calls_Delete = ["m.keyToBytes(key)", "m.has(keyBytes)", "m.tree.Delete(keyBytes)", "m.rawKeysStore.Delete(key)", "m.addSize(-1)"] ∧
+    calls_Stream = ["m.rawKeysStore.IterateKeys(...)", "m.keyToBytes(key)", "m.tree.Get(keyBytes)", "m.bytesToValue(valueBytes)",
+      "callback(key, value)"] ∧
+    calls_Commit = ["m.root.Set(...)", "m.tree.Root()", "m.tree.Commit()"] ∧
+    calls_Root = ["m.tree.Root()"] ∧ calls_has = ["m.tree.Get(keyBytes)"] ∧
+    calls_addSize = ["m.size.Get()", "m.size.Set(...)"] ∧ calls_Size = ["m.size.Get()"] ∧
+    nilValueRule = "valueBytes = []byte{}" := by
+  decide
+
 /-! ## the identifier serializers (`Hive/Model/AdsId.lean`): the root cell goes through them, the import uses the raw root -/
 
 section IdCodecs
